@@ -193,7 +193,8 @@ def generate(rng, tier, cls):
         sched.extend([a['id']] * len(a['ops']))
 
     rng.shuffle(sched)
-    return {'actors': actors, 'schedule': sched, 'faults': []}
+    return {'actors': actors, 'schedule': sched, 'faults': [],
+            'dom_values': rng.choice([None] * 7 + ['sub', 'same', 'same'])}
 
 
 def execute(scn, L):
